@@ -1529,6 +1529,29 @@ func c18listenField(fn *ssa.Function, muxT *types.Named) *types.Var {
 			out = structField(fa.X.Type(), fa.Field)
 		}
 	})
+	if out == nil {
+		// the slot is handed by address to a shared bind helper: `l.bind(&l.xListener, …)`
+		allInstrs(fn, func(in ssa.Instruction) {
+			fa, ok := in.(*ssa.FieldAddr)
+			if !ok || namedOf(fa.X.Type()) != muxT {
+				return
+			}
+			f := structField(fa.X.Type(), fa.Field)
+			if f == nil {
+				return
+			}
+			if _, isPtr := f.Type().Underlying().(*types.Pointer); !isPtr {
+				return
+			}
+			for _, ref := range *fa.Referrers() {
+				if ci, ok := ref.(ssa.CallInstruction); ok {
+					if g := staticCallee(ci); g != nil && fnPkg(g) == fnPkg(fn) {
+						out = f
+					}
+				}
+			}
+		})
+	}
 	return out
 }
 
